@@ -70,7 +70,7 @@ def split_chunks(lines, n):
     return [lines[i:i + k] for i in range(0, len(lines), k)]
 
 
-def run_parallel(cmd, lines, cwd=None, jobs=8, timeout=3600, env=None):
+def run_parallel(cmd, lines, cwd=None, jobs=8, timeout=900, env=None):
     """feed `lines` (list of str) to `jobs` copies of cmd; returns output lines in order"""
     if not lines:
         return []
@@ -84,7 +84,11 @@ def run_parallel(cmd, lines, cwd=None, jobs=8, timeout=3600, env=None):
     outs = [None] * len(procs)
 
     def work(i, p, ch):
-        o, e = p.communicate(("\n".join(ch) + "\n").encode(), timeout=timeout)
+        try:
+            o, e = p.communicate(("\n".join(ch) + "\n").encode(), timeout=timeout)
+        except subprocess.TimeoutExpired:
+            p.kill()
+            o, e = p.communicate()
         outs[i] = (o.decode(errors="replace"), e.decode(errors="replace"), p.returncode)
 
     ths = [threading.Thread(target=work, args=(i, p, ch)) for i, (p, ch) in enumerate(procs)]
@@ -99,8 +103,13 @@ def run_parallel(cmd, lines, cwd=None, jobs=8, timeout=3600, env=None):
             # a crash: re-run the chunk's scenarios one at a time to find and isolate it
             got = []
             for line in chunks[i]:
-                p = subprocess.run(cmd, cwd=cwd, input=(line + "\n").encode(), stdout=subprocess.PIPE,
-                                   stderr=subprocess.PIPE, timeout=timeout, env=env)
+                try:
+                    p = subprocess.run(cmd, cwd=cwd, input=(line + "\n").encode(), stdout=subprocess.PIPE,
+                                       stderr=subprocess.PIPE, timeout=120, env=env)
+                except subprocess.TimeoutExpired:
+                    sid = json.loads(line).get("id")
+                    got.append(json.dumps({"id": sid, "crash": "timeout (120 s) on this scenario alone", "rc": -9}))
+                    continue
                 ls = [l for l in p.stdout.decode(errors="replace").split("\n") if l.strip()]
                 if len(ls) == 1:
                     got.append(ls[0])
@@ -269,8 +278,8 @@ def canon_calls(calls, go):
                     args.append(["bool", a])
                 elif isinstance(a, str):
                     args.append(["string", a])
-                elif isinstance(a, float) and not float(a).is_integer():
-                    args.append(["float", a])
+                elif isinstance(a, list) and a and a[0] == "f64":
+                    args.append(canon_node(["float64", a[1]]))
                 else:
                     args.append(["num", str(int(a))])
             out.append([c[0]] + args)
@@ -282,9 +291,7 @@ def canon_calls(calls, go):
                 elif a[0] == "string":
                     args.append(["string", a[1]])
                 elif a[0].startswith("float"):
-                    import struct
-                    x = struct.unpack("<d", struct.pack("<Q", int(a[1])))[0]
-                    args.append(["float", x] if not float(x).is_integer() else ["num", str(int(x))])
+                    args.append(canon_node(["float64", a[1]]))
                 else:
                     args.append(["num", str(a[1])])
             out.append([c[0]] + args)
